@@ -728,6 +728,54 @@ theorem aggF_value (g : Agg) (how : How) (m : Option Dir) (ch : ColHow) (f : RFr
     simp only [List.map_map, Function.comp_def, col_recol _ _ ix m c hc', Option.bind_some, List.getElem?_map,
       List.getElem?_eq_getElem hk, Option.map_some, Option.join_some]
 
+/-- what an operand of a frame aggregate shows in cell `(t, c)`: a frame its (reindexed) cell, NaN without the column;
+a scalar itself in every cell -/
+def cellX (m : Option Dir) (c : String) (t : Int) : FOperand → Option Rat
+  | .df f => cellD Option.none f m c t
+  | .num q => q
+  | .ts _ => Option.none
+
+/-- on frames alone the aggregate with scalars is the aggregate of frames -/
+theorem aggFS_refines (g : Agg) (how : How) (m : Option Dir) (ch : ColHow) (fs : List RFrame) :
+    aggregateFS g how m ch (fs.map .df) = aggregateF g how m ch fs := by
+  have h : framesOfX (fs.map FOperand.df) = fs := by
+    induction fs with
+    | nil => rfl
+    | cons f fs ih => simp only [framesOfX, List.map_cons, List.filterMap_cons] at ih ⊢; rw [ih]
+  simp only [aggregateFS, aggregateF, h, List.map_map, Function.comp_def]
+
+/-- **value with scalars**: frames (several columns each) and scalars in any order - the result lives on the joint index
+and the joint header of the FRAMES, and its cell `(t, c)` is `Agg.at` of what every operand shows there (`cellX`) -/
+theorem aggFS_value (g : Agg) (how : How) (m : Option Dir) (ch : ColHow) (xs : List FOperand) (f : RFrame) (fs : List RFrame)
+    (hf : framesOfX xs = f :: fs) :
+    ∃ ix, joinIndex how ((f :: fs).map (·.idx)) = some ix ∧
+      aggregateFS g how m ch xs =
+        some { idx := ix, cols := (aggCols ch f fs).map fun c => (c, ix.map fun t => g.at (xs.map (cellX m c t))) } := by
+  have hix : ∃ ix, joinIndex how ((f :: fs).map (·.idx)) = some ix := by cases how <;> exact ⟨_, rfl⟩
+  obtain ⟨ix, hix⟩ := hix
+  refine ⟨ix, hix, ?_⟩
+  have hix' : joinIndex how (f.idx :: fs.map (·.idx)) = some ix := hix
+  simp only [aggregateFS, hf, hix', List.map_cons]
+  congr 2
+  apply List.map_congr_left
+  intro c hc
+  congr 1
+  apply List.ext_getElem
+  · simp
+  · intro k h1 h2
+    simp only [List.getElem_map, List.getElem_range, List.map_map]
+    congr 1
+    have hk : k < ix.length := by simpa using h1
+    have hc' : c ∈ colsJoin ch f.names (fs.map (·.names)) := hc
+    apply List.map_congr_left
+    intro x _
+    cases x with
+    | num q => rfl
+    | ts s => rfl
+    | df x =>
+      simp only [Function.comp_def, cellX, col_recol _ _ ix m c hc', Option.bind_some, List.getElem?_map,
+        List.getElem?_eq_getElem hk, Option.map_some, Option.join_some]
+
 /-- the joint header: the union of the headers under `'oj'` (the default), the common columns under `'ij'`; sorted -/
 theorem aggF_columns_oj (f : RFrame) (fs : List RFrame) (c : String) :
     c ∈ aggCols .oj f fs ↔ ∃ x ∈ f :: fs, c ∈ x.names := by
